@@ -5,6 +5,8 @@ from .common import TRUSTED, Ctx
 
 def check(rep):
     ctx = Ctx(rep)
+    if rep.tier == "thorough":
+        LR.validate_engine(ctx)
     LR.rule_comment_end(ctx)
     LR.rule_trivia_start(ctx)
     LR.rule_trivia_silent(ctx)
